@@ -311,6 +311,10 @@ def run_case(case, fail, stats):
         nrows = nrows_of(L)
         rows = [(list(L["knobs"][r]), L["penalty"][r], L["vary_active"][r], L["target_active"][r], list(L["targets"][r])) for r in range(nrows)]
         for r, (kn, pen, va, ta, tv) in enumerate(rows):
+            # leave the knobs somewhere else first: reload must put EVERY logged value back, whatever the state it
+            # starts from (otherwise reloading the rows in order hides a knob that is not written)
+            for i, n in enumerate(names):
+                box[n] = 977.25 + 3 * i
             try:
                 opt.reload(r)
             except Exception as e:
@@ -550,6 +554,12 @@ def gen_calls(rng, spec, family):
 
 
 def fixed_cases():
+    # rows logged while a knob is frozen, the knob moved later, every row reloaded at the end
+    for k in (0, 1):
+        yield {"problem": {"class": "far", "kind": "linear", "nk": 2, "A": [[1, 0.5], [0.25, 1]], "b": [3, -2],
+                            "knobs": [{"init": 0.5}, {"init": -1.0}], "targets": [{"tol": 1e-9}, {"tol": 1e-9}], "n_steps_max": 5},
+               "calls": [["disable", {"vary": [k]}], ["step", {"n": 1}], ["tag", {"tag": "frozen"}], ["enable", {"vary": [k]}],
+                         ["step", {"n": 2}], ["reload", {"i": 1}]]}
     # the probed max_step witness: max_step = (1, 5), raw step (10, 10)
     yield {"problem": {"class": "far", "kind": "linear", "nk": 2, "A": [[1, 0], [0, 1]], "b": [10, 10],
                         "knobs": [{"init": 0.0, "max_step": 1}, {"init": 0.0, "max_step": 5}],
